@@ -30,9 +30,9 @@ func mkSign(v Value) Value {
 		return big.NewInt(int64(b.Sign()))
 	}
 	if nonNeg(v) {
-		return symI("(ite (= "+T(v)+" 0) 0 1)", 2, true)
+		return symI("(ite (= "+T(v)+" 0) 0 1)", big.NewInt(0), big.NewInt(1))
 	}
-	return symI("(ite (< "+T(v)+" 0) (- 1) (ite (= "+T(v)+" 0) 0 1))", 2, false)
+	return symI("(ite (< "+T(v)+" 0) (- 1) (ite (= "+T(v)+" 0) 0 1))", big.NewInt(-1), big.NewInt(1))
 }
 
 func mkCmp3(a, b Value) Value {
@@ -41,7 +41,7 @@ func mkCmp3(a, b Value) Value {
 	if xo && yo {
 		return big.NewInt(int64(x.Cmp(y)))
 	}
-	return symI("(ite (< "+T(a)+" "+T(b)+") (- 1) (ite (= "+T(a)+" "+T(b)+") 0 1))", 2, false)
+	return symI("(ite (< "+T(a)+" "+T(b)+") (- 1) (ite (= "+T(a)+" "+T(b)+") 0 1))", big.NewInt(-1), big.NewInt(1))
 }
 
 func mkAbs(v Value) Value {
@@ -51,7 +51,12 @@ func mkAbs(v Value) Value {
 	if nonNeg(v) {
 		return v
 	}
-	return symI("(absI "+T(v)+")", bitsOf(v), true)
+	l, h := rng(v)
+	var hi *big.Int
+	if l != nil && h != nil {
+		hi = maxAbs(l, h)
+	}
+	return symI("(absI "+T(v)+")", big.NewInt(0), hi)
 }
 
 func registerBig(P *Program) {
@@ -145,8 +150,6 @@ func registerBig(P *Program) {
 		return mkCmp3(mkAbs(it.bigVal(a[0])), mkAbs(it.bigVal(a[1])))
 	})
 	P.reg(B+"Sign", func(it *Interp, a []Value) Value { return mkSign(it.bigVal(a[0])) })
-	i64lo, i64hi := new(big.Int).Neg(pow2(63)), new(big.Int).Sub(pow2(63), big.NewInt(1))
-	u64hi := new(big.Int).Sub(pow2(64), big.NewInt(1))
 	P.reg(B+"IsInt64", func(it *Interp, a []Value) Value {
 		v := it.bigVal(a[0])
 		return mkAnd(mkCmp(">=", v, i64lo), mkCmp("<=", v, i64hi))
@@ -162,10 +165,10 @@ func registerBig(P *Program) {
 		}
 		// low 64 bits, two's complement (undefined in Go docs when it does not fit; this is what the implementation does)
 		s := v.(*Sym)
-		if s.Bits > 0 && s.Bits <= 63 {
+		if within(s, i64lo, i64hi) {
 			return s
 		}
-		return &Sym{S: SInt, T: "(wrapS " + s.T + " " + pow2(64).String() + ")", Bits: 63}
+		return &Sym{S: SInt, T: "(wrapS " + s.T + " " + pow2(64).String() + ")", Lo: i64lo, Hi: i64hi}
 	})
 	P.reg(B+"Uint64", func(it *Interp, a []Value) Value {
 		v := it.bigVal(a[0])
@@ -173,11 +176,11 @@ func registerBig(P *Program) {
 			return new(big.Int).SetUint64(b.Uint64())
 		}
 		s := v.(*Sym)
-		if s.NonNeg && s.Bits > 0 && s.Bits <= 64 {
+		if within(s, zero0, u64hi) {
 			return s
 		}
 		// big.Int.Uint64 returns the low 64 bits of |x|
-		return &Sym{S: SInt, T: "(wrapU (absI " + s.T + ") " + pow2(64).String() + ")", Bits: 64, NonNeg: true}
+		return &Sym{S: SInt, T: "(wrapU (absI " + s.T + ") " + pow2(64).String() + ")", Lo: zero0, Hi: u64hi}
 	})
 	P.reg(B+"BitLen", func(it *Interp, a []Value) Value {
 		v := it.bigVal(a[0])
